@@ -9,6 +9,9 @@
 //!   fill v s e | copyWithin t s e | indexOf v f | lastIndexOf v [f] | includes v f | join [sep] | at i
 //!   x <name> arg* / q <name> arg*   methods compared by (a)/(b)/(c) differential only (x mutates)
 //!   js <source>                 debugging aid
+//! Methods whose running time is proportional to `length` are not executed when length > BIG_LEN (an index store
+//! near 2^32 makes every such loop effectively endless): the line `<id>.<step> skip biglen` is printed instead and
+//! the rest of the history is skipped (`skip dead`); the check stops comparing that history there and counts it.
 //! Values: i<int32> d<hex16 bits> u n t f s<k> o<k> (o0 = the subject);  rel args: int | u | +inf | -inf
 //! Output: one line per input line:
 //!   <id>.<step> <result> | <getter/setter log> | len=<desc> ext=<0|1> | <key>:<desc> ... | form=<storage form>
@@ -77,7 +80,12 @@ function DUMPARR(a) {
 function cb(tag, ret) { return function (v, i, o) { LOG.push([tag, i, v]); return ret(v, i); }; }
 var X = {
   sort: function (o) { return AP.sort.call(o); },
-  sortnum: function (o) { return AP.sort.call(o, function (a, b) { LOG.push(["cmp", a, b]); return (a < b) ? -1 : (a > b) ? 1 : 0; }); },
+  // consistent comparator => the result is specified (stable sort); the sequence of comparator calls is not, and is not logged
+  sortnum: function (o) {
+    // a total preorder on keys (type, then text): consistent for every mix of values incl. NaN, -0, objects
+    var key = function (x) { return (typeof x) + ":" + (Object.is(x, -0) ? "-0" : String(x)); };
+    return AP.sort.call(o, function (a, b) { var ka = key(a), kb = key(b); return (ka < kb) ? -1 : (ka > kb) ? 1 : 0; });
+  },
   toSorted: function (o) { return AP.toSorted.call(o); },
   flat: function (o, d) { return AP.flat.call(o, d); },
   flatMap: function (o) { return AP.flatMap.call(o, cb("fm", function (v, i) { return (i % 2) ? [v, i] : v; })); },
@@ -120,9 +128,18 @@ struct Env {
     literal_cache: HashMap<String, JsObject>,
 }
 
+const BIG_LEN: f64 = 20000.0;
+
+/// ops that never loop over `length` (index / length / descriptor operations, push, pop, at, integrity levels
+/// iterate over own keys only)
+fn constant_time(op: &str) -> bool {
+    matches!(op, "set" | "get" | "del" | "len" | "lenic" | "def" | "deflen" | "freeze" | "seal" | "pe" | "push" | "pop" | "at")
+}
+
 struct Hist {
     id: String,
     kind: char,
+    dead: bool,
     subject: JsObject,
     target: JsObject, // the object whose storage is observed (== subject unless C)
     step: usize,
@@ -364,6 +381,10 @@ impl Env {
             if ks == "length" {
                 lens = desc;
                 seen_len = true;
+            } else if ks.parse::<u64>().map(|ix| ix >= 4_294_967_295 && ix.to_string() == ks).unwrap_or(false) {
+                // a canonical numeric string that is not an array index (>= 2^32 - 1): an ordinary string-keyed
+                // property (e.g. push on an array of length 2^32 - 1); outside the modelled index domain
+                extra.push_str(" !bigkey");
             } else {
                 if seen_len { extra.push_str(" !order"); }
                 if let Ok(ix) = ks.parse::<u64>() {
@@ -596,7 +617,7 @@ fn main() {
                     }
                     _ => (arr.clone(), arr),
                 };
-                Ok(Hist { id: id.clone(), kind, subject, target, step: 0 })
+                Ok(Hist { id: id.clone(), kind, dead: false, subject, target, step: 0 })
             });
             match r {
                 Ok(Ok(h)) => {
@@ -614,6 +635,19 @@ fn main() {
             None => { writeln!(out, "?.0 bad no-history").unwrap(); }
             Some(h) => {
                 h.step += 1;
+                if !h.dead && !constant_time(p[0]) {
+                    let subject = h.subject.clone();
+                    let n = bh::guarded(|| subject.get(js_string!("length"), &mut env.ctx).ok().and_then(|v| v.to_number(&mut env.ctx).ok()).unwrap_or(0.0));
+                    if !matches!(n, Ok(x) if x.is_nan() || x <= BIG_LEN) {
+                        h.dead = true;
+                        writeln!(out, "{}.{} skip biglen", h.id, h.step).unwrap();
+                        continue;
+                    }
+                }
+                if h.dead {
+                    writeln!(out, "{}.{} skip dead", h.id, h.step).unwrap();
+                    continue;
+                }
                 let l = bh::guarded(|| match run_op(&mut env, h, &p) {
                     Ok(res) => env.observe(h, res),
                     Err(m) => format!("{}.{} bad {m}", h.id, h.step),
